@@ -21,6 +21,9 @@ PROPS_FILES = ["CogentModel/Props/C19.lean"]
 LEAN_TARGETS = ["CogentModel.Props.C19"]
 DRIVER = "drv_c19"
 TRUSTED = [
+    "translator/c19_atomic2lean.py (AST of util/io.py class atomic_write -> Gen/C19Program.lean: control structure around the file-system calls; write list of "
+    "DataStoreDirectory._write); anything outside its fragment is a reported translation problem; the statement semantics / with-statement protocol of "
+    "Model/AtomicProg.lean are hand-written; the translated program is compared with the real traces and outcomes for every injected fault on every run",
     "hand-written model lean/CogentModel/Model/AtomicWrite.lean (file system + atomic_write program + handler table), tied by "
     "comparing the model's program / crash states / fault traces with the system-call traces extracted from the real writers on every run",
     "hand-written model lean/CogentModel/Model/Composable.lean (select / writeAll of _apply_to) for the resume theorems",
@@ -29,11 +32,15 @@ TRUSTED = [
 ]
 ASSUMPTIONS = [
     "POSIX rename(2) replaces the destination atomically; a crash is modelled at system-call granularity (no torn single write, no power loss / fsync ordering)",
-    "single fault per run; the failing call has no effect; a fault injected into the final rmtree itself is exempt from the no-temp-left requirement",
+    "single fault per run; the failing call has no effect; a fault injected into the final rmtree itself is exempt from the no-temp-left requirement "
+    "(it is swallowed by ignore_errors: the write must then report success with the complete new content — fault_at_every_call_outcome)",
     "writers given a *.zip file name (nested atomic_write) are exercised by the fault injection but not modelled in Lean",
     "the directory data store's record write is modelled at file-operation granularity (Model/StoreWrite.lean: create / fill record, create / fill md5; "
     "variant detected from the kill_open / kill_created injections); the drop of a stale not-completed record after a completed write and the log file are not in that model",
-    "atomic_write(path, tmpdir=D): modelled for the success path (programTmp); crash / fault points on that route are judged by the spec oracle only",
+    "atomic_write(path, tmpdir=D): modelled for the success path (programTmp) and, through the translated program, for every raised OSError (calls issued, outcome); "
+    "kill points on that route are judged by the spec oracle only",
+    "a fault 'at rmtree' is an OSError from the first unlink / rmdir INSIDE shutil.rmtree (persistent variant: from every one of them)",
+    "tempfile.mkdtemp's own retry on FileExistsError is stdlib behaviour outside the model (that injected case is skipped when comparing with the translated program)",
     "zip-member faults: the failing zip_data call is the open of the archive (zipfile's own retry in 'w+b' is part of the model's handler); a failing close() writes nothing",
 ]
 
@@ -491,6 +498,10 @@ def _judge(cfg, data, mode, k, real, out, collect=True):
             res.append((f"fault:{tclass}:{call}:{s}{wsfx}", f"OSError raised by call {k} ({call}): destination is neither the old nor the new content", [old, new], after))
         elif k < commit_idx and after != old:
             res.append((f"fault:{tclass}:{call}:dest-changed{wsfx}", f"OSError raised by call {k} ({call}) before the commit point changed the destination", old, after))
+        elif after != old and real.get("exc") is not None:
+            # the write REPORTED a failure to its caller, yet the destination no longer holds the previous content
+            res.append((f"fault:{tclass}:{call}:raised-after-commit{wsfx}", f"OSError raised by call {k} ({call}) reaches the caller as a failed write, but the destination "
+                        "was already replaced (a reported failure must leave the previous content / absence)", old, after))
         if left and call != "rmtree":
             res.append((f"fault:{tclass}:{call}:temp-left{wsfx}", f"OSError raised by call {k} ({call}) is propagated to the caller but temporary files stay behind", [], left))
     elif mode in ("fmtfail", "natural"):
